@@ -71,7 +71,13 @@ def replay (j : Json) : R Verdict := do
       pf := ("C10", s!"a parameter space that is not well-formed was accepted ({(fieldD j "rule").compress})") :: pf
     match model with
     | .ok ms => if ms != s then dis := some "accepted specs differ"
-    | .error e => dis := some s!"impl accepts, model rejects ({repr e})"
+    | .error e =>
+      dis := some s!"impl accepts, model rejects ({repr e})"
+      -- a document in which exactly one rule was broken on purpose (unknown attribute / type name, wrong attribute
+      -- type, missing mandatory attribute, inconsistent bounds ...) must be rejected whatever it would denote
+      match (fieldD j "rule").getStr?.toOption with
+      | some rule => pf := ("C10", s!"a document breaking a rule ({rule}) was accepted") :: pf
+      | none => pure ()
     -- the initial value
     let ivj := fieldD imp "init"
     if ivj.isNull then
@@ -80,6 +86,21 @@ def replay (j : Json) : R Verdict := do
       let iv ← decValue ivj
       if !conf s iv then pf := ("C10", "the initial value of the accepted spec does not conform to it") :: pf
       if iv != initialValue s then dis := some "initial_value differs from the model's initialValue"
+    -- mutations at probability 1 from the initial value (sent for accepted rule-breaking documents and soups)
+    match (fieldD imp "walk").getArr?.toOption with
+    | some steps =>
+      let mut k := 0
+      for st in steps do
+        if !(fieldD st "panic").isNull then
+          pf := ("C15", s!"mutation of the accepted spec's initial value panicked (step {k})") :: ("C01", s!"mutation of the accepted spec's initial value panicked (step {k})") :: pf
+        else
+          match decValue st with
+          | .ok v => if !conf s v then
+              pf := ("C01", s!"step {k} of a mutation walk from the initial value of an ACCEPTED spec does not conform to that spec ({(fieldD j "rule").compress})") :: pf
+          | .error _ => pure ()
+        k := k + 1
+      if !steps.isEmpty then tags := "walk" :: tags
+    | none => pure ()
     -- every declared parameter is present
     match y with
     | .map m =>
